@@ -142,6 +142,7 @@ func checkGlobBase(c *Ctx, r *Report) {
 	checkFixture(c, r, []string{"bare-prefix"})
 	checkCutsets(c, r, fns)
 	checkRootedClean(c, r)
+	checkGlobSource(c, r, fns)
 }
 
 // checkCutsets (G-cutset): strings.Trim/TrimLeft/TrimRight take a *set* of
@@ -442,4 +443,83 @@ func shorten(s string, n int) string {
 		return s
 	}
 	return s[:n] + "…"
+}
+
+// checkGlobSource (D5-glob-source): the source->destination map handed to the
+// function that plans expanded files is, on every path, the result of
+// glob.Glob: the rules of that function (destination ending in '/' means
+// "into that directory", structure below the common directory) apply to every
+// file or config entry, also with globbing disabled or for a single plain
+// file; a map built by hand beside it bypasses them.
+func checkGlobSource(c *Ctx, r *Report, fns []*ssa.Function) {
+	n := 0
+	for _, fn := range fns {
+		forEachInstr(fn, func(in ssa.Instruction) {
+			call, ok := in.(*ssa.Call)
+			if !ok {
+				return
+			}
+			sc := call.Call.StaticCallee()
+			if sc == nil || !c.isModuleFunc(sc) {
+				return
+			}
+			for i, a := range call.Call.Args {
+				if a.Type().String() != "map[string]string" || i >= len(sc.Params) {
+					continue
+				}
+				// the callee ranges over this map and inserts into the destination map
+				inserts := false
+				forEachInstr(sc, func(i2 ssa.Instruction) {
+					if mu, ok := i2.(*ssa.MapUpdate); ok && isContentMap(mu.Map.Type()) {
+						inserts = true
+					}
+				})
+				if !inserts {
+					continue
+				}
+				n++
+				bad := ""
+				seen := map[ssa.Value]bool{}
+				var walk func(v ssa.Value, d int)
+				walk = func(v ssa.Value, d int) {
+					if v == nil || seen[v] || bad != "" || d > 8 {
+						return
+					}
+					seen[v] = true
+					switch x := v.(type) {
+					case *ssa.Phi:
+						for _, e := range x.Edges {
+							walk(e, d+1)
+						}
+					case *ssa.Extract:
+						walk(x.Tuple, d+1)
+					case *ssa.Call:
+						if !calleeIs(x, globPath, "", "Glob") {
+							bad = "the result of " + calleeName(x)
+						}
+					case *ssa.UnOp:
+						if al, ok := x.X.(*ssa.Alloc); ok {
+							for _, ref := range *al.Referrers() {
+								if st, ok := ref.(*ssa.Store); ok && st.Addr == ssa.Value(al) {
+									walk(st.Val, d+1)
+								}
+							}
+							return
+						}
+						bad = "a value loaded from " + shorten(valueExpr(c, x.X, 0), 60)
+					case *ssa.Const:
+						// nil map on an error path
+					case *ssa.MakeMap:
+						bad = "a map built by hand"
+					default:
+						bad = "an unrecognised value " + shorten(valueExpr(c, v, 0), 60)
+					}
+				}
+				walk(a, 0)
+				r.Check(bad == "", "D5-glob-source", fmt.Sprintf("%s: the expansion handed to %s#%d comes from glob.Glob", c.funcKey(fn), c.funcKey(sc), n), c.instrPos(call),
+					"the source->destination map can be "+bad+" instead of the result of glob.Glob: the trailing-slash and common-directory rules of glob.Glob would not apply to such entries")
+			}
+		})
+	}
+	r.Floor("D5-glob-source", n, 1)
 }
